@@ -33,7 +33,7 @@ claim("C10", "E2-enumerate", "bounded-exhaustive enumeration: expansion bound on
       "Trusted: the bound formulas in ref_lz.rs (copied from the property statement).",
       "DESIGN.md §4 C10")
 claim("C11", "E3-isolate", "exhaustive enumeration of token sequences (reference encoder) and of derived corruptions, executed in isolated workers in both builds",
-      "From 7 start states all token sequences up to depth 4 (LZ10) / 3-4 (LZ11, every length form incl. lengths mila never emits) over literal + reference(len, disp) are encoded by the reference encoder and decompressed through the 4 entry points; every strict prefix, every reference rewritten to before the start, every other type byte, all byte strings of length <= 2 and a 7-symbol alphabet up to length 5, and the stored form are required to behave as the statement says; panics are located, aborts/timeouts attributed by subprocess isolation.",
+      "From 7 start states all token sequences up to depth 4 (LZ10) / 3-4 (LZ11, every length form incl. lengths mila never emits) over literal + reference(len, disp) are encoded by the reference encoder and decompressed through the 4 entry points; every strict prefix, every reference rewritten to before the start, every other type byte, all byte strings of length <= 2 and a 7-symbol alphabet up to length 5, and the stored form are required to behave as the statement says; panics are located, aborts/timeouts attributed by subprocess isolation. LZ10 streams are also sent behind the 0x13 wrapper (accepted ⇒ exact data; corrupted ⇒ Err, never a panic); LZ11 streams with the 8-byte header expanding to 16, 63, 128.03 and 257 MiB must decode.",
       "Trusted: ref_lz.rs encoder/decoder (self-checked against each other on every case). Inputs the statement does not classify (trailing bytes, LZ11 at the LZ10 entry, overshooting references) are only required not to panic.",
       "DESIGN.md §4 C11")
 
@@ -41,17 +41,17 @@ claim("C01", "E2-enumerate", "bounded-exhaustive enumeration of archive contents
       "Every archive over data lengths {0,1,3,4,5,8,9,12} (+13,16 thorough), every assignment of {raw pattern, pointer, string, c-string} to each cell, up to two labelled addresses incl. the end address and unaligned ones, both endiannesses (≈0.57M archives quick) is serialized and re-parsed by mila (content compared through the public API), its image validated by a strict reference parser, and the same content is fed to mila's parser in every layout of the conforming family written by the reference writer (≈33M parses quick).",
       "Trusted: ref_bin.rs (content model, reference writer and strict parser written from the format description); encoding_rs as the Shift-JIS codec. Strings come from a small alphabet, data length ≤ 16.",
       "DESIGN.md §4 C01")
-claim("C02", "E2-enumerate", "bounded-exhaustive enumeration of contents x ALL call orders x fresh instances, compared with the reference writer's canonical image",
-      "Every content of the C01 family without c-strings is built through every permutation of its annotation calls (≤5 calls quick / ≤6 thorough), each in several fresh BinArchive instances; all images must be one and the same and equal the canonical image produced by the independent reference writer; parse→serialize of every canonical image and of the fixture files must be the identity.",
-      "Trusted: ref_bin.rs canonical writer. The 'fresh hash states' sub-claim is sampled (R fresh instances per order, 64 for the tie cases) because std's HashMap seeds cannot be controlled; contents and call orders are exhaustive.",
+claim("C02", "E2-enumerate", "bounded-exhaustive enumeration of contents x ALL call orders x EVERY hash iteration order (forced through the verif-hooks feature and read back), compared with the reference writer's canonical image",
+      "Every content of the C01 family without c-strings is built through every permutation of its annotation calls (≤5 calls quick / ≤6 thorough), each in several fresh BinArchive instances; all images must be one and the same and equal the canonical image produced by the independent reference writer; parse→serialize of every canonical image and of the fixture files must be the identity. Hooked twin (mila built with its verif-hooks feature): for 38 868 contents of ≤ 5 cells every permutation of the keys of every annotation map is forced as that map's hash iteration order (3.5 M assignments, up to 8! for tied labels), the realised order is read back, and the image must still be the one canonical image. Plus the tricky-string catalogue, collation-inverted label names, 3..=40 cells x 1..=3 unsorted labels, dense string/data length sweeps and call histories.",
+      "Trusted: ref_bin.rs canonical writer; the 143-line verif_hooks.rs wrapper in /repo (std behaviour for unregistered keys). The plain fresh-instance pass (R instances per order) is kept as a hook-free second line and is labelled sampled; the hash-order claim itself is decided by the hooked twin.",
       "DESIGN.md §4 C02, §6")
 claim("C03", "E1-bfs", "explicit-state BFS over the real BinArchive API with a lock-step reference model and a rebuilt-from-scratch differential oracle",
       "From 6 initial archives every history up to depth 4 (5 thorough) over ~150 operations per state (allocate/deallocate/truncate with aligned, misaligned, out-of-range and overflowing arguments, both inclusive flags, writer-side allocate, annotation writes/deletes) is executed on a real BinArchive rebuilt for every transition; after each call acceptance, every observable, the re-parsed serialized image (which exposes pending c-strings) and equality with the image of the same content built from scratch are compared with the model. States are de-duplicated on the full content.",
-      "Trusted: ref_bin.rs edit semantics (transcribed from the property statement). Archives above S_max=16/24 bytes are not expanded; the full alphabet is used below depth 3/4, relocation operations only at the last level.",
+      "Trusted: ref_bin.rs edit semantics (transcribed from the property statement). Archives above S_max=16/20 bytes are not expanded; the full alphabet is used below depth 3, relocation operations only at the last level. Medium archives (7..130 pointer cells + 6 records) are searched over the relocation operations at every cell to depth 1-2; a 10-step script runs on a 70 000-byte archive.",
       "DESIGN.md §4 C03")
 
 claim("C04", "E2-enumerate + E1-bfs", "exhaustive accessor grid (sizes x endians x accessors x boundary addresses/lengths x value sets) plus explicit-state BFS over reader/writer cursor interleavings, both arithmetic builds",
-      "Grid: every typed, byte-range and annotation accessor at every address in 0..=size+2 and around 2^31, 2^32, isize::MAX and usize::MAX, lengths up to usize::MAX, all 256/65 536 values and NaN payloads, sizes 0..=9, both endiannesses, judged by u128 range arithmetic and an endian encode/decode oracle (≈10M cases per build). Cursor semantics: BFS to depth 4/5 over (archive, reader cursor, writer cursor) with every stream operation, seek/skip and interleaved positional calls compared against the positional model.",
+      "Grid: every typed, byte-range and annotation accessor at every address in 0..=size+2 and around 2^31, 2^32, isize::MAX and usize::MAX, lengths up to usize::MAX, all 256/65 536 values and NaN payloads, sizes 0..=9, both endiannesses, judged by u128 range arithmetic and an endian encode/decode oracle (≈10M cases per build). Cursor semantics: BFS to depth 4/5 over (archive, reader cursor, writer cursor) with every stream operation, seek/skip and interleaved positional calls compared against the positional model. Long-lived streams: ONE reader and ONE writer kept across every sequence of ≤3 (4) accesses from 11 operations, from every start position 0..=202 of a 200-byte archive and around every power of two and the end of a 70 000-byte archive; read_bytes counts around 2^16, 2^20, 2^24 on a 17 MiB archive.",
       "Trusted: the range/endianness oracle in c04.rs. Zero-length accesses and label accessors on the last three addresses are outside the statement (no-panic only).",
       "DESIGN.md §4 C04")
 
@@ -60,8 +60,8 @@ claim("C06", "E2-enumerate", "bounded-exhaustive enumeration of archives (titles
       "Trusted: ref_text.rs image reader, ref_bin.rs parser, encoding_rs as codec. Messages with a literal backslash-n cannot be stored through set_message and are skipped.",
       "DESIGN.md §4 C06")
 claim("C07", "E1-bfs", "explicit-state BFS over the real TextArchive to the fixpoint with a lock-step reference map",
-      "The complete reachable state space (≈11k states, ≈385k transitions) of set_message/delete_message/set_title over 3 keys x 10 escape-heavy messages x 2 titles from a new and a parsed archive is explored; every transition is executed on a fresh real object and all observers (order, has/get, title, dirty flag, set-back-what-you-got, serialize→parse order/cleanliness) are compared with an insertion-ordered reference map.",
-      "Trusted: ref_text.rs escape/unescape model (from the statement). Key and message alphabets are small and fixed.",
+      "The complete reachable state space (≈14.6k states, ≈495k transitions) of set_message/delete_message/set_title over 3 keys x 10 escape-heavy messages x 2 titles, and over 2 keys x a 14-message text alphabet (characters outside Shift-JIS, leading/trailing U+FEFF, CR, tab, astral, trail-byte-backslash characters) in both formats, from a new and a parsed archive is explored; every transition is executed on a fresh real object and all observers (order, has/get, title, dirty flag, set-back-what-you-got, serialize→parse order/cleanliness) are compared with an insertion-ordered reference map.",
+      "Trusted: ref_text.rs escape/unescape model (from the statement). Key and message alphabets are small and fixed. Dirty flag: clear when pristine, set once any set_message was made, unconstrained after only deletes/title changes (the statement says no more).",
       "DESIGN.md §4 C07")
 
 claim("C15", "E2-enumerate", "bounded-exhaustive enumeration of ordered file maps x conforming re-arrangements, strict reference reader of the image",
@@ -73,8 +73,8 @@ claim("C16", "E2-enumerate", "bounded-exhaustive enumeration of arc images over 
       "Trusted: ref_pack.rs arc builder on top of the reference bin-archive writer.",
       "DESIGN.md §4 C16")
 
-claim("C05", "E3-isolate", "deviation-bounded exhaustive enumeration (all single deviations of 31 conforming seeds + header grids) executed in isolated workers under a measuring/capping allocator and watchdog, both arithmetic builds",
-      "Every seed file x each of its entry points x every single planted deviation (each 4-byte word at every offset set to each of 28 boundary values in both byte orders, each byte to 5 values, every truncation, appends) and all 32-byte files over a 12^4 (28^4 thorough) header-word grid for the 9 bin-archive entry points, all ≤2-byte buffers and all 65 536 'pack'+count headers: ≈2M cases per build. Oracle per case: Ok/Err only (panics located, aborts and hangs attributed through subprocess isolation), no single allocation above 1 MiB + 64 x input, over-declaring headers/entries rejected (decided by the reference parser), accepted values re-serialize without panicking.",
+claim("C05", "E3-isolate", "deviation-bounded exhaustive enumeration (all single deviations of 38 conforming seeds incl. every ordered pair of aligned words copied one over the other, + header grids) executed in isolated workers under a measuring/capping allocator and watchdog, both arithmetic builds",
+      "Every seed file x each of its entry points x every single planted deviation (each 4-byte word at every offset set to each of 28 boundary values in both byte orders, each byte to 5 values, every truncation, appends) and all 32-byte files over a 12^4 (28^4 thorough) header-word grid for the 9 bin-archive entry points, all ≤2-byte buffers and all 65 536 'pack'+count headers: ≈2.5M cases per build. Oracle per case: Ok/Err only (panics located, aborts and hangs attributed through subprocess isolation), no single allocation above 1 MiB + 64 x input, over-declaring headers/entries rejected (decided by the reference parser), accepted values re-serialize without panicking.",
       "Trusted: ref_bin.rs header arithmetic, the capping allocator, the seeds (fixtures + files from the reference writers and from mila's own serializers). Deviation bound 1 is completed at the quick tier; 'all byte strings' is not claimed beyond that neighbourhood.",
       "DESIGN.md §4 C05")
 
